@@ -29,6 +29,7 @@ type Config struct {
 	MapOrder    int
 	MaxPaths    int
 	StopOnFirst bool
+	MergeFuncs  map[string]bool // pure functions summarised by ITE-merging their paths
 }
 
 func (c *Config) initAllowed(path string) bool {
